@@ -24,3 +24,7 @@ impl Document for Mapping {
 
 #[verifier::external_body]
 pub fn join_errors(errors: &Vec<String>) -> String { errors.join(";") }
+
+pub uninterp spec fn mapping_len(m: &Mapping) -> nat;
+pub assume_specification[ Mapping::is_empty ](m: &Mapping) -> (r: bool) ensures r == (mapping_len(m) == 0);
+pub assume_specification[ Mapping::len ](m: &Mapping) -> (r: usize) ensures r == mapping_len(m);
